@@ -191,19 +191,15 @@ func vPermission(tag string, full bool) *structs.IntentionPermission {
 	case 2:
 		p.HTTP.PathPrefix = "/" + verifrt.Str(tag+".prefix", 1)
 	}
-	nm := 2
-	if verifrt.Thorough() {
-		nm = 3
-	}
-	switch verifrt.Choice(tag+".methods", nm) {
+	switch verifrt.Choice(tag+".methods", 2) {
 	case 1:
 		p.HTTP.Methods = []string{"GET"}
 	case 2:
 		p.HTTP.Methods = []string{"GET", "POST"}
 	}
 	nh := 3
-	if verifrt.Thorough() {
-		nh = 4
+	if verifrt.Thorough() && tag == "p0" {
+		nh = 4 // also an inverted header match
 	}
 	switch verifrt.Choice(tag+".header", nh) {
 	case 1:
@@ -226,8 +222,8 @@ func boolInt(b bool) int {
 }
 
 func VerifC14_HTTP() {
-	// intention 1: web -> db with 1..2 permissions; optional intention 2 on the wildcard source (thorough: or api,
-	// possibly with a permission of its own)
+	// intention 1: web -> db with 1..2 permissions (the second one from the reduced family in the quick tier, from
+	// the full family in the thorough tier); optional intention 2 on the wildcard source
 	thorough := verifrt.Thorough()
 	var ixns structs.Intentions
 	first := &structs.Intention{SourceNS: "default", DestinationNS: "default", DestinationName: "db", SourceName: "web"}
@@ -240,10 +236,6 @@ func VerifC14_HTTP() {
 	if verifrt.Bool("second") {
 		x := &structs.Intention{SourceNS: "default", DestinationNS: "default", DestinationName: "db", SourceName: structs.WildcardSpecifier}
 		kinds := 2
-		if thorough {
-			x.SourceName = []string{"api", structs.WildcardSpecifier}[verifrt.Choice("second.src", 2)]
-			kinds = 3
-		}
 		switch verifrt.Choice("second.kind", kinds) {
 		case 0:
 			x.Action = structs.IntentionActionAllow
@@ -262,12 +254,9 @@ func VerifC14_HTTP() {
 	verifrt.Assert("C14.http.no-error", err == nil)
 
 	callers := []string{"web", "zzz"}
-	if thorough {
-		callers = []string{"web", "api", "zzz"}
-	}
 	caller := callers[verifrt.Choice("caller", len(callers))]
 	uri := "spiffe://td.consul/ns/default/dc/dc1/svc/" + caller
-	req := vRequest{path: "/" + verifrt.Str("req.path", 1+boolInt(thorough)), method: []string{"GET", "PUT", "POST"}[verifrt.Choice("req.method", 2+verifrt.Choice("req.method.post", 1+boolInt(thorough)))]}
+	req := vRequest{path: "/" + verifrt.Str("req.path", 1), method: []string{"GET", "PUT", "POST"}[verifrt.Choice("req.method", 2)]}
 	if req.hasHdr = verifrt.Bool("req.header"); req.hasHdr {
 		req.hdrVal = []string{"on", "off"}[verifrt.Choice("req.header.value", 2)]
 	}
